@@ -1,18 +1,27 @@
 package main
 
 import (
+	"archive/tar"
 	"bufio"
 	"bytes"
+	"crypto/sha256"
+	"encoding/hex"
 	"encoding/json"
 	"errors"
 	"fmt"
 	"io"
 	"os"
 	"path"
+	"path/filepath"
 	"sort"
+	"sync"
 	"syscall"
 	"time"
 
+	"github.com/pojntfx/stfs/pkg/encryption"
+	"github.com/pojntfx/stfs/pkg/mtio"
+	"github.com/pojntfx/stfs/pkg/recovery"
+	"github.com/pojntfx/stfs/pkg/signature"
 	"github.com/spf13/afero"
 )
 
@@ -36,6 +45,10 @@ func extraCommand(name string, args []string, w *bufio.Writer) bool {
 			os.Exit(2)
 		}
 		runRef(h, w)
+		return true
+	}
+	if f, ok := extraCmds[name]; ok {
+		f(args, w)
 		return true
 	}
 	return false
@@ -191,4 +204,203 @@ func (r *runner) refWalk(s afero.Fs) []Entry {
 	}
 	rec("/")
 	return out
+}
+
+// ---------------------------------------------------------------- prefix sweep (C06)
+
+type prefixResult struct {
+	N      int64  `json:"n"`
+	Class  string `json:"class"` // ok | error class | HANG | PANIC
+	Err    string `json:"err,omitempty"`
+	RowSig string `json:"rowsig"` // hash of the projected rows
+	Rows   []Row  `json:"rows,omitempty"`
+	Fetch  []map[string]interface{} `json:"fetch,omitempty"`
+}
+
+type prefixJob struct {
+	History History `json:"history"`
+	Ns      []int64 `json:"ns"`     // explicit prefix lengths; empty: every byte
+	Stride  int64   `json:"stride"` // with empty Ns: every Stride-th byte plus block boundaries +-1
+}
+
+func init() {
+	extraCmds["prefix"] = cmdPrefix
+}
+
+var extraCmds = map[string]func(args []string, w *bufio.Writer){}
+
+func cmdPrefix(args []string, w *bufio.Writer) {
+	var job prefixJob
+	if err := json.NewDecoder(os.Stdin).Decode(&job); err != nil {
+		fmt.Fprintln(os.Stderr, "bad job:", err)
+		os.Exit(2)
+	}
+	h := job.History
+	base := os.Getenv("VERIF_SCRATCH")
+	if base == "" {
+		base = os.TempDir()
+	}
+	dir, err := os.MkdirTemp(base, "stfspfx-")
+	if err != nil {
+		os.Exit(2)
+	}
+	defer os.RemoveAll(dir)
+	keysDir := filepath.Join(base, "stfsdrv-keys")
+	ks, err := loadOrGenKeys(keysDir, h.Config.Enc, h.Config.Sig, h.Config.Password, h.KeyTag)
+	if err != nil {
+		emit(w, map[string]interface{}{"fatal": err.Error()})
+		return
+	}
+	r := &runner{h: h, ks: ks, dir: dir, files: map[string]afero.File{}, shaBlob: map[string]int{}}
+	for i, b := range h.Blobs {
+		d := pattern(b)
+		r.blobs = append(r.blobs, d)
+		sum := sha256.Sum256(d)
+		r.shaBlob[hex.EncodeToString(sum[:8])] = i
+	}
+	in, err := mk(h.Config, filepath.Join(dir, "drive.tar"), filepath.Join(dir, "meta.sqlite"), dir, ks, &seams{})
+	if err != nil {
+		emit(w, map[string]interface{}{"fatal": err.Error()})
+		return
+	}
+	r.in = in
+	for _, c := range h.Calls {
+		done := make(chan struct{})
+		go func() { defer close(done); r.exec(c) }()
+		select {
+		case <-done:
+		case <-time.After(10 * time.Second):
+			emit(w, map[string]interface{}{"fatal": "history hung"})
+			return
+		}
+	}
+	full, _ := os.ReadFile(in.drive)
+	members, _, _ := r.scan(0)
+	emit(w, map[string]interface{}{"full_len": len(full), "members": members})
+	ns := job.Ns
+	if len(ns) == 0 {
+		stride := job.Stride
+		if stride <= 0 {
+			stride = 1
+		}
+		seen := map[int64]bool{}
+		add := func(n int64) {
+			if n >= 0 && n <= int64(len(full)) && !seen[n] {
+				seen[n] = true
+				ns = append(ns, n)
+			}
+		}
+		for n := int64(0); n <= int64(len(full)); n += stride {
+			add(n)
+		}
+		for b := int64(0); b <= int64(len(full)); b += 512 {
+			add(b - 1)
+			add(b)
+			add(b + 1)
+		}
+		for _, m := range members {
+			add((m.Start+m.HB)*512 + m.Size)
+			add((m.Start+m.HB)*512 + m.Size - 1)
+		}
+		add(int64(len(full)))
+		sort.Slice(ns, func(i, j int) bool { return ns[i] < ns[j] })
+	}
+	type res struct {
+		idx int
+		pr  prefixResult
+	}
+	out := make([]prefixResult, len(ns))
+	sem := make(chan struct{}, 12)
+	var wg sync.WaitGroup
+	var mu sync.Mutex
+	sigSeen := map[string]bool{}
+	for i, n := range ns {
+		wg.Add(1)
+		sem <- struct{}{}
+		go func(i int, n int64) {
+			defer wg.Done()
+			defer func() { <-sem }()
+			sub, _ := os.MkdirTemp(dir, "p")
+			defer os.RemoveAll(sub)
+			drive := filepath.Join(sub, "d.tar")
+			os.WriteFile(drive, full[:n], 0o600)
+			pr := prefixResult{N: n}
+			in2, err := mk(h.Config, drive, filepath.Join(sub, "m.sqlite"), sub, ks, &seams{})
+			if err != nil {
+				pr.Class = "mk:" + err.Error()
+				out[i] = pr
+				return
+			}
+			done := make(chan struct{})
+			var ierr error
+			panicked := ""
+			go func() {
+				defer close(done)
+				defer func() {
+					if x := recover(); x != nil {
+						panicked = fmt.Sprint(x)
+					}
+				}()
+				rd, err := in2.bc.GetReader()
+				if err != nil {
+					ierr = err
+					return
+				}
+				ierr = recovery.Index(rd, mtio.MagneticTapeIO{}, in2.mc, in2.pipes, in2.rcrypt, 0, 0, true, false, 0,
+					func(hh *tar.Header, k int) error {
+						return encryption.DecryptHeader(hh, in2.pipes.Encryption, in2.rcrypt.Identity)
+					},
+					func(hh *tar.Header, reg bool) error {
+						return signature.VerifyHeader(hh, reg, in2.pipes.Signature, in2.rcrypt.Recipient)
+					}, nil)
+				in2.bc.CloseReader()
+			}()
+			select {
+			case <-done:
+				if panicked != "" {
+					pr.Class, pr.Err = "PANIC", panicked
+				} else if ierr != nil {
+					pr.Class, pr.Err = "error", ierr.Error()
+				} else {
+					pr.Class = "ok"
+				}
+			case <-time.After(5 * time.Second):
+				pr.Class = "HANG"
+				out[i] = pr
+				return
+			}
+			rows, _ := dumpRows(filepath.Join(sub, "m.sqlite"))
+			for k := range rows {
+				rows[k].Mtime, rows[k].Atime, rows[k].Ctime = 0, 0, 0
+				rows[k].Pax = ""
+			}
+			b, _ := json.Marshal(rows)
+			sum := sha256.Sum256(b)
+			pr.RowSig = hex.EncodeToString(sum[:8])
+			mu.Lock()
+			first := !sigSeen[pr.RowSig]
+			sigSeen[pr.RowSig] = true
+			mu.Unlock()
+			if first {
+				pr.Rows = rows
+			}
+			r2 := &runner{h: h, in: in2, ks: ks, dir: sub, shaBlob: r.shaBlob, blobs: r.blobs}
+			fd := make(chan struct{})
+			go func() {
+				defer close(fd)
+				defer func() { recover() }()
+				pr.Fetch = r2.fetchAll()
+			}()
+			select {
+			case <-fd:
+			case <-time.After(5 * time.Second):
+				pr.Fetch = []map[string]interface{}{{"name": "*", "err": "HANG"}}
+			}
+			out[i] = pr
+		}(i, n)
+	}
+	wg.Wait()
+	for _, pr := range out {
+		emit(w, pr)
+	}
 }
